@@ -431,6 +431,37 @@ def add_dead_blocks(rng, cfg, stmts, n=1):
     return stmts
 
 
+def isa_tables(cfg):
+    """the instruction / macro tables of make_isa() in the model's format (for the text route: statements parsed from the
+    source text are ISA statements, selected and encoded by the Select / Macro model)"""
+    L = bool(cfg['little'])
+    num = lambda n, al: {'id': 'v', 't': 'numeric', 'arg': {'n': n, 'align': al, 'little': L}}  # noqa
+    instrs = []
+    for m, (opc, ws) in INSTRS.items():
+        v = {'opcode': {'v': opc, 'n': 8, 'little': L}}
+        if ws:
+            v['count'] = len(ws)
+            v['sets'] = {'sets': [[num(8 * w, True)] for w in ws]}
+        instrs.append({'mn': m, 'variants': [v]})
+    instrs.append({'mn': 'ldn', 'variants': [{'opcode': {'v': 0xA, 'n': 4, 'little': L}, 'count': 1, 'sets': {'sets': [[num(8, False)]]}}]})
+    instrs.append({'mn': 'ld4', 'variants': [{'opcode': {'v': 0xB, 'n': 4, 'little': L}, 'count': 1, 'sets': {'sets': [[num(4, False)]]}}]})
+    macros = [{'mn': 'ldn2', 'variants': [{'operands': {'opcode': {'v': 0, 'n': 1, 'little': L}, 'count': 1, 'sets': {'sets': [[num(8, False)]]}},
+                                           'steps': [{'mn': 'ldn', 'ops': [{'t': 'arg', 'n': 0}]},
+                                                     {'mn': 'ldn', 'ops': [{'t': 'argPlus', 'n': 0, 'k': 1}]}]}]}]
+    return instrs, macros
+
+
+def to_text_request(cfg, texts, start=0, end=None, fill=0):
+    """texts: list of (file name, source text) in file-index order"""
+    mc = model_cfg(cfg)
+    mc['instrs'], mc['macros'] = isa_tables(cfg)
+    req = {'op': 'asmtext', 'cfg': mc, 'files': [{'name': n.split('/')[-1], 'text': t} for n, t in texts], 'start': start, 'fill': fill,
+           'cstrTerm': cfg.get('cstr_terminator', 0), 'embedded': bool(cfg.get('allow_embedded_strings'))}
+    if end is not None:
+        req['end'] = end
+    return req
+
+
 def to_model_request(cfg, files, start=0, end=None, fill=0):
     req = {'op': 'asm', 'cfg': model_cfg(cfg), 'files': [[model_stmt(s) for s in f] for f in files], 'start': start,
            'fill': fill}
